@@ -116,5 +116,8 @@ DropEmpties(live) == [k \in DOMAIN live |-> IF StoredEmpty(live[k]) THEN None EL
    last-modified time and the VOLUME's TTL (0 for a non-TTL volume), whereas
    reads expire a blob by its append time and its OWN TTL *)
 TtlFilterDrops(b, vttl) == b # None /\ HasTtl(b, vttl) /\ (vttl = "" \/ LmOld(b))
-DropTtl(live, vttl) == [k \in DOMAIN live |-> IF TtlFilterDrops(live[k], vttl) THEN None ELSE live[k]]
+(* only needles copied by the compaction proper pass the filter; what was appended between
+   compact and commit (dirty) is carried over by makeupDiff without it *)
+DropTtl(live, vttl, dirty) ==
+  [k \in DOMAIN live |-> IF k \notin dirty /\ TtlFilterDrops(live[k], vttl) THEN None ELSE live[k]]
 =============================================================================
